@@ -126,6 +126,11 @@ func (c *Ctx) Load(patterns ...string) {
 		c.undecidedFatal("load", "no packages matched "+strings.Join(patterns, " "))
 		return
 	}
+	if nerr > 0 {
+		// an ill-typed tree cannot be analysed: undecided (fails), never a silent pass or a checker crash
+		c.undecidedFatal("LOAD", fmt.Sprintf("%d type/parse errors in the working tree; no analysis performed", nerr))
+		return
+	}
 	c.Pkgs = pkgs
 	c.Fset = pkgs[0].Fset
 	for _, p := range pkgs {
